@@ -396,7 +396,7 @@ func genRandP(r *vh.Rng, maxOps int, guarded bool) PCase {
 			if guarded {
 				continue
 			}
-			c.Ops = append(c.Ops, POp{K: "age", D: []int{97, 400}[r.Intn(2)]})
+			c.Ops = append(c.Ops, POp{K: "age", D: []int{90, 400}[r.Intn(2)]})
 		default:
 			if guarded {
 				continue
